@@ -224,7 +224,9 @@ pub fn campaign(target: &str, seed: u64, secs: u64, jobs: usize, work: &std::pat
     let lf_seed = (seed % 0x7fff_fffe) + 1;
     let out = std::process::Command::new("cargo")
         .current_dir(&logdir)
-        .args(["+nightly", "fuzz", "run", "--fuzz-dir", "/verif/fuzz", target])
+        .args(["+nightly", "fuzz", "run", "--fuzz-dir"])
+        .arg(crate::engine::verif_dir().join("fuzz"))
+        .arg(target)
         .arg(&corpus)
         .arg("--")
         .arg(format!("-max_total_time={}", secs))
